@@ -28,6 +28,19 @@ def NoPanic {α : Type} (r : Except SErr α) : Prop := ∀ s l, r ≠ .error (.p
 /-- the same for unlocated errors (numeric operations, `evalPrim`, `spreadApply`) -/
 def NoPanicE {α : Type} (r : Except Err α) : Prop := ∀ s, r ≠ .error (.panic s)
 
+/-- the outcome of the lexer as the reader surfaces it (`Read.advance`): the tokens, or the
+`SyntaxError` located where the lexer stopped -/
+def lexOutcome (cs : List Char) : Except SErr (List LToken) :=
+  match Lex.all cs with
+  | (ts, none) => .ok ts
+  | (_, some p) => .error (.syntax, some p)
+
+/-- the outcome of reading a whole text: the data, or the error that stopped the reader -/
+def readOutcome (cs : List Char) : Except SErr (List Datum) :=
+  match Read.all cs with
+  | (ds, none) => .ok ds
+  | (_, some e) => .error e
+
 /-! ## no rational literal with denominator 0 -/
 
 /-- not a rational literal `n/0` -/
@@ -147,7 +160,7 @@ structure Store.Safe (σ : Store) : Prop where
 
 namespace Eval
 
-/-- a pending tail call carries `ok` code and an allocated environment -/
+/-- a returned value is safe; a pending tail call carries `ok` code -/
 def TailRes.Safe : TailRes → Prop
   | .value v => v.Safe
   | .tailCall f args _ => f.ok = true ∧ Expr.okList args = true
